@@ -327,3 +327,34 @@ Example show_trans_pins :
   show_trans (1 # 1000) (1 # 1000) t ([1 # 2], [1 # 2])%Q = (1, 2, 3, true, false, true, false) /\
   show_trans (1 # 1000) (1 # 1000) t ([5], [5])%Q = (1, 2, 3, true, false, false, true).
 Proof. vm_compute. repeat split; reflexivity. Qed.
+
+(* ------------------------------------------------------------------ how many steps a collect_rollouts call takes *)
+Lemma off_step_done ak sc st o : snd (off_step ak sc st o) = t_done (snd (fst (off_step ak sc st o))).
+Proof. unfold off_step. destruct (vstep1 sc (os_cur st)) as [c' out]. reflexivity. Qed.
+
+(* a rollout that does not run out of oracle entries takes exactly train_freq steps (unit "step"), resp. ends exactly when the
+   train_freq-th episode of this rollout ends (unit "episode": every stored done counts once) *)
+Theorem off_rollout_counts ak sc ne tf : forall orcs steps eps os nt s l,
+  off_rollout ak sc ne tf orcs steps eps os nt = (s, l) -> l_exh s = false ->
+  match tf with
+  | TfStep f => steps <= f -> steps + Z.of_nat (length l) = f
+  | TfEpis f => eps <= f -> eps + Z.of_nat (length (filter t_done l)) = f /\ (l <> [] -> forall d, t_done (last l d) = true)
+  end.
+Proof.
+  induction orcs as [|o r IH]; intros steps eps os nt s l H X; cbn [off_rollout] in H.
+  - destruct (off_more tf steps eps) eqn:M; inv H; [discriminate X|].
+    destruct tf as [f|f]; cbn [off_more] in M; apply Z.ltb_ge in M; cbn; intros; [lia | split; [lia | congruence]].
+  - destruct (off_more tf steps eps) eqn:M.
+    + pose proof (off_step_done ak sc os o) as D. destruct (off_step ak sc os o) as [[os1 t] dn]. cbn [fst snd] in D. subst dn.
+      match type of H with context [off_rollout ?a ?b ?c ?d ?e ?f ?g ?h ?i] =>
+        destruct (off_rollout a b c d e f g h i) as [s1 l1] eqn:E end.
+      inv H. specialize (IH _ _ _ _ _ _ E X).
+      destruct tf as [f|f]; cbn [off_more] in M; apply Z.ltb_lt in M; intros B.
+      * cbn [length]. lia.
+      * cbn [filter]. destruct (t_done t) eqn:T.
+        -- destruct IH as [A C]; [lia|]. split; [cbn [length]; lia|]. intros _ d.
+           destruct l1 as [|t1 l1']; [exact T|]. apply (C ltac:(discriminate) d).
+        -- destruct IH as [A C]; [lia|]. split; [exact A|]. intros _ d.
+           destruct l1 as [|t1 l1']; [cbn in A; lia|]. apply (C ltac:(discriminate) d).
+    + inv H. destruct tf as [f|f]; cbn [off_more] in M; apply Z.ltb_ge in M; cbn; intros; [lia | split; [lia | congruence]].
+Qed.
